@@ -32,7 +32,10 @@ class SPEC:
             "data sets of its other templates across the first tick: the first refresh must close the process without writing - sends "
             "before the tick succeed, sends after tick + slack fail and write nothing, no refresh ever arrives (Spec.C14.udpUnrefreshable; "
             "'cannot be rebuilt' is derived by the Spec from the element types with the model's makeTemplateSet, the op's marker "
-            "must agree). Every SendSet call is under a 2 s watchdog: a call that does not return is recorded as `hung` (verdict "
+            "must agree). TCP 'slow' sessions (2 quick / 24 thorough): the collector advertises a small receive window and reads nothing "
+            "before readat=<350..500 ms> while the application sends a 20-60 KB data set every millisecond - one of its Writes blocks "
+            "for hundreds of milliseconds, across several connection probes; every send must succeed and the stream (several MB) must "
+            "split into exactly the messages sent. Every SendSet call is under a 2 s watchdog: a call that does not return is recorded as `hung` (verdict "
             "send-never-returned) and the session still ends. Observation: every datagram / stream "
             "chunk with arrival time, every SendSet result with call and return time, peer-close and Close times, background goroutines "
             "left (pprof labels), recovered panics, race-detector log. Spec.C14.udpVerdict / tcpVerdict (Lean, independent RFC 7011 "
@@ -281,6 +284,28 @@ def tcp_scenario(rng, sup, k, mode):
         "tcp:" + mode)
 
 
+def tcp_slow_scenario(rng, sup, k):
+    """a collector that is slow to read: small receive window, nothing read before <readat>. The application sends a large
+    data set every millisecond, so one of its Writes blocks within a few milliseconds and stays blocked across several
+    connection probes (every TCP_CHECK ms) until the collector reads. Everything must arrive, whole and in order, and no
+    send may fail: the probe has no business with the application's writes."""
+    bt = G.by_type()
+    tid = rng.choice(TIDS)
+    var = rng.choice([ie for ie in bt[13] if ie.len == 65535][:8])
+    small = rng.choice(bt[1])
+    ies = [small, var]
+    sends = [(rng.randint(0, 10), tpl_desc(rng, [(tid, ies)]))]
+    payload = G.rand_bytes(rng, rng.choice([20000, 40000, 60000]))
+    big = "%s~d~%d~%d@%s=n%d,%s=x%s" % (rng.choice("012"), tid, tid, small.tok(), rng.getrandbits(8), var.tok(), G.hexs(payload))
+    read_at = rng.randint(350, 500)
+    loop = "%d~1~%d~%s" % (sends[-1][0] + 10, read_at - 30, big)
+    close_at = read_at + 900
+    tail = "3~5~" + data_desc(rng, tid, ies, 1)
+    return ("life tcp s%d dom=%d check=%d slack=%d grace=%d mode=slow peerat=- readat=%d closeat=%d closers=1 reps=2 sends=%s loop=%s tail=%s" % (
+        k, rng.choice([0, 1, 7, rng.getrandbits(32)]), TCP_CHECK, TCP_SLACK, TCP_GRACE, read_at, close_at,
+        "!".join("%d~%s" % s for s in sends), loop, tail), "tcp:slow")
+
+
 def gen_cases(tier, seed):
     rng = random.Random(seed * 1000003 + 14)
     sup = G.registry_supported()
@@ -292,6 +317,11 @@ def gen_cases(tier, seed):
     modes = ["full", "half", "idle", "full", "half", "idle", "cclose", "full", "half", "idle", "cclose", "full"]
     for k in range(n):
         op, label = tcp_scenario(rng, sup, k, modes[k % len(modes)])
+        cases.append(Case([op], label, True, True))
+    # a collector that is slow to read (own generator: the sessions above stay what they were for a given seed)
+    rng_s = random.Random(seed * 1000003 + 1418)
+    for k in range(2 if tier != "thorough" else 24):
+        op, label = tcp_slow_scenario(rng_s, sup, k)
         cases.append(Case([op], label, True, True))
     # unrefreshable UDP sessions: one for every four ordinary ones (quick: 3 + 12), from a generator of their own, so
     # that the ordinary sessions of a seed are what they were before these were added
